@@ -125,7 +125,9 @@ Fixpoint pint_loop (fuel F : nat) (x : list Z) (p il jr : nat) (am aM : Z) (s1 s
     else
       o <- pass F x il jr ;;
       match o with
-      | Single x1 a => Ok (x1, a, a)                 (* if (il == jr) { *am=a; *aM=a; return; } *)
+      | Single x1 a =>                               (* if (il == jr) { if (stop1 == 0) *am=a; *)
+          Ok (x1, (if s1 then am else a),            (*                 if (stop2 == 0) *aM=a; return; } *)
+                  (if s2 then aM else a))
       | Split x2 a i j =>
         if S p <? j then pint_loop f F x2 p il j am aM s1 s2          (* j > pp *)
         else if j <? p then pint_loop f F x2 p i jr am aM s1 s2       (* j < p *)
